@@ -101,6 +101,12 @@ claim("C19", "fault_enumeration", "admin",
       "Held on the calls of the run. ListPartitionReassignments is only exercised fault-free (not among the statement's controller-bound operations); DescribeLogDirs for unknown broker ids is not generated; client-side connection errors under concurrent callers are counted, not judged.",
       "DESIGN.md §7 C19")
 
+claim("C15", "exploration", "client",
+      "runtime monitor of the real Client against the simulated cluster: every metadata response served is versioned, the cl.applied hook (inside the client's write lock) and the deregistration log line give the order in which the client changed state, every API read samples the applied-event count before and after the call and must equal the reference fold of some prefix inside that window; reachability enumerated over unreachable / refusing / mid-request-failing subsets; race detector",
+      "200 (quick) / 5000 (thorough) metadata histories of 5-60 steps (topics appear/vanish/err per class, partitions added/removed, leaders move or vanish, brokers added/removed/readdressed, full vs per-topic refresh) with 1-8 concurrent readers and an optional 1 ms background refresher, sequential histories for the after-refresh clause, plus 465 enumerated and 60 random reachability cases for NewClient and RefreshMetadata with Retry.Max 0/1.",
+      "Held on the executions of the run. Where the statement is silent (WritablePartitions for a leader id that is not a known broker; empty partition lists) either answer is accepted and counted.",
+      "DESIGN.md §7 C15")
+
 def main():
     props = [json.loads(l) for l in open(os.path.join(HERE, "properties.jsonl"))]
     ids = [p["id"] for p in props]
